@@ -140,6 +140,21 @@ func genLabelSets(r *rand.Rand, n int) []labels.Labels {
 	for i := len(out); i < n; i++ {
 		out = append(out, labels.FromStrings("__name__", "m", "uniq", fmt.Sprint(i)))
 	}
+	// a label whose number of distinct values sits on or next to the postings-offset-table
+	// sampling boundary of the index reader (every 32nd value plus the last one)
+	if n >= 33 && r.IntN(3) == 0 {
+		k := 1 + r.IntN(n/32)
+		w := 32*k + gen.Pick(r, []int{1, 1, 1, 0, 2, -1})
+		if w > n {
+			w = 32*k + 1
+		}
+		if w > n {
+			w = n
+		}
+		for i := 0; i < w; i++ {
+			out[i] = labels.NewBuilder(out[i]).Set("wide", fmt.Sprintf("w%05d", i)).Labels()
+		}
+	}
 	sort.Slice(out, func(i, j int) bool { return labels.Compare(out[i], out[j]) < 0 })
 	return out
 }
